@@ -10,6 +10,9 @@
 #include "bsx.h"
 #include <votca/csg/topology.h>
 #include <memory>
+#include <votca/csg/openbox.h>
+#include <votca/csg/orthorhombicbox.h>
+#include <votca/csg/triclinicbox.h>
 
 using namespace votca::csg;
 using bsx::hexd;
@@ -396,8 +399,189 @@ static Verdict check_reuse(int kind, const std::vector<int> &seq, bool use) {
   return V;
 }
 
+// ------------------------------------------------------------------ copy histories
+// Operation histories over ONE boundary object and its copies.  Ops: s<i> setBox(config i) on the current object; Q query everything on the
+// current object; K Clone(); C copy construction; F copy-assignment into a fresh object of the same class; U copy-assignment into an object that
+// was used before (other box, queried); after K/C/F/U the copy is the current object; B go back to the object the current one was copied from.
+// Topology level: s<i> = Topology::setBox(config, type mode), F/U = CopyTopologyData into a fresh / a used Topology (K, C do not exist).
+// Oracle: after the history every live object is queried and must equal BITWISE a fresh object given only that object's current box
+// (so a copy carries the source's box, and copying never changes the source); every Q inside the history is checked the same way.
+static std::vector<Probe> copy_probes(const Box &bx) {
+  std::vector<Probe> p;
+  const double f[3] = {0.0, 0.375, 0.625};
+  for (double x : f) for (double y : f) for (double z : f)
+    for (int sh = 0; sh < 2; sh++) {
+      D3 ri = place(bx, {0.875, 0.125, 0.375}), d = place(bx, {x, y, z});
+      p.push_back({ri, shifted(bx, {ri[0] + d[0], ri[1] + d[1], ri[2] + d[2]}, sh ? I3{{0, 0, 3}} : I3{{0, 0, 0}})});
+    }
+  return p;
+}
+// configurations of the copy histories: 4 matrices (classes) / 4 (matrix, type mode) pairs (Topology)
+static std::vector<Box> copy_configs(bool topology) {
+  std::vector<Box> r = reuse_configs();
+  if (topology) return {r[0], r[1], r[2], r[5]};     // diagonal auto, triclinic auto, zero matrix auto (open), triclinic explicit
+  return {r[0], r[1], r[3], r[5]};                   // 1x1.5x3 diagonal, 1x1.5x3 triclinic, 3x1x1.5 diagonal, cubic triclinic (matrix only)
+}
+struct QField { const char *name; size_t begin, end; };
+struct QResult {
+  std::vector<double> v;  // type, 9 box entries, volume, [shortest dimension], 3 doubles per probe
+  bool has_h = false;
+  // first differing field
+  const char *diff(const QResult &o) const {
+    if (v.size() != o.v.size()) return "size";
+    auto ne = [&](size_t a, size_t b) { return memcmp(&v[a], &o.v[a], (b - a) * sizeof(double)) != 0; };
+    if (ne(0, 1)) return "box-type";
+    if (ne(1, 10)) return "box-matrix";
+    if (ne(10, 11)) return "volume";
+    size_t k = 11;
+    if (has_h) { if (ne(11, 12)) return "shortest-dimension"; k = 12; }
+    if (ne(k, v.size())) return "connection-vector";
+    return nullptr;
+  }
+  std::string field(const char *f) const {
+    if (!strcmp(f, "box-type")) return bsx::fmt(v[0]);
+    if (!strcmp(f, "volume")) return bsx::fmt(v[10]);
+    if (!strcmp(f, "shortest-dimension")) return bsx::fmt(v[11]);
+    if (!strcmp(f, "box-matrix")) { std::string s; for (int i = 1; i < 10; i++) s += bsx::fmt(v[i]) + " "; return s; }
+    return "(vectors)";
+  }
+};
+static QResult query_bc(const BoundaryCondition &b, const std::vector<Probe> &pr, bool with_h) {
+  QResult q; q.has_h = with_h;
+  q.v.push_back((double)b.getBoxType());
+  for (int i = 0; i < 9; i++) q.v.push_back(b.getBox().data()[i]);
+  q.v.push_back(b.BoxVolume());
+  if (with_h) q.v.push_back(b.getShortestBoxDimension());
+  for (auto &p : pr) { Eigen::Vector3d r = b.BCShortestConnection(ev(p.ri), ev(p.rj)); q.v.insert(q.v.end(), {r[0], r[1], r[2]}); }
+  return q;
+}
+static QResult query_top(Topology &t, const std::vector<Probe> &pr, bool with_h) {
+  QResult q; q.has_h = with_h;
+  q.v.push_back((double)t.getBoxType());
+  for (int i = 0; i < 9; i++) q.v.push_back(t.getBox().data()[i]);
+  q.v.push_back(t.BoxVolume());
+  if (with_h) q.v.push_back(t.ShortestBoxSize());
+  for (auto &p : pr) {
+    Eigen::Vector3d r = t.BCShortestConnection(ev(p.ri), ev(p.rj));
+    if (t.BeadCount() >= 2) { t.getBead(0)->setPos(ev(p.ri)); t.getBead(1)->setPos(ev(p.rj)); r += 0.0 * t.getDist(0, 1); if (memcmp(r.data(), t.getDist(0, 1).data(), 24) != 0) r[0] = -1e300; }
+    q.v.insert(q.v.end(), {r[0], r[1], r[2]});
+  }
+  return q;
+}
+struct Live {
+  int cfg = -1, parent = -1;
+  const char *origin = "original";
+  bool source_was_queried = false, own_setbox = false, was_copied = false, queried = false;
+  std::unique_ptr<BoundaryCondition> bc;  // class level
+  std::unique_ptr<Topology> top;          // topology level
+};
+static std::unique_ptr<BoundaryCondition> make_bc(int cls) {
+  if (cls == 0) return std::make_unique<OrthorhombicBox>();
+  if (cls == 1) return std::make_unique<TriclinicBox>();
+  return std::make_unique<OpenBox>();
+}
+template <class T> static std::unique_ptr<BoundaryCondition> copy_ctor(const BoundaryCondition &s) { return std::unique_ptr<BoundaryCondition>(new T(static_cast<const T &>(s))); }
+template <class T> static void copy_assign(BoundaryCondition &d, const BoundaryCondition &s) { static_cast<T &>(d) = static_cast<const T &>(s); }
+static std::unique_ptr<Topology> make_top() {
+  auto t = std::make_unique<Topology>();
+  t->CreateBead(Bead::spherical, "A", "A", 1, 1.0, 0.0);
+  t->CreateBead(Bead::spherical, "B", "A", 1, 1.0, 0.0);
+  return t;
+}
+static const char *COPYCLS[4] = {"OrthorhombicBox", "TriclinicBox", "OpenBox", "Topology"};
+// ops: 0..3 setBox(config), 4 Q, 5 K, 6 C, 7 F, 8 U, 9 B
+static const char *OPN[10] = {"s0", "s1", "s2", "s3", "Q", "K", "C", "F", "U", "B"};
+static std::string opsstr(const std::vector<int> &ops) { std::string s; for (size_t i = 0; i < ops.size(); i++) s += (i ? "," : "") + std::string(OPN[ops[i]]); return s; }
+// returns false through `valid` when the op sequence is not applicable (B at the original, K/C on a Topology, first op not a setBox)
+static Verdict check_copy_history(int cls, const std::vector<int> &ops, bool &valid) {
+  Verdict V;
+  valid = true;
+  bool istop = cls == 3;
+  std::vector<Box> cfg = copy_configs(istop);
+  std::vector<std::vector<Probe>> probes;
+  for (auto &c : cfg) probes.push_back(copy_probes(c));
+  std::vector<Live> live(1);
+  if (istop) live[0].top = make_top(); else live[0].bc = make_bc(cls);
+  size_t cur = 0;
+  std::string hist = opsstr(ops);
+  auto expected = [&](int c) {
+    if (istop) { auto t = make_top(); apply_box(*t, cfg[c]); return query_top(*t, probes[c], !cfg[c].open()); }
+    auto b = make_bc(cls); b->setBox(cfg[c].mat()); return query_bc(*b, probes[c], cls != 2);
+  };
+  auto check = [&](size_t i, const char *when) {
+    Live &o = live[i];
+    QResult got = istop ? query_top(*o.top, probes[o.cfg], !cfg[o.cfg].open()) : query_bc(*o.bc, probes[o.cfg], cls != 2);
+    QResult exp = expected(o.cfg);
+    const char *d = got.diff(exp);
+    bool firstq = !o.queried;
+    o.queried = true;
+    if (!d) return true;
+    V.ok = false;
+    // class level: the key also says whether the source had been queried before the copy, whether the object got a box of its own afterwards and
+    // whether it has itself been copied (the inputs a cache / hand-written copy operation could depend on); Topology level: origin + field only
+    V.key = std::string("copyhist-") + COPYCLS[cls] + "-" + o.origin;
+    if (!istop) V.key += std::string(o.source_was_queried ? "-of-queried-source" : "") + (o.own_setbox ? "-after-own-setbox" : "") + (o.was_copied ? "-after-being-copied" : "");
+    else if (o.own_setbox) V.key += "-after-own-setbox";
+    V.key += std::string("-") + d;
+    V.what = std::string(COPYCLS[cls]) + " history [" + hist + "]: object #" + std::to_string(i) + " (" + o.origin + ", current box = config " + std::to_string(o.cfg) + " " + cfg[o.cfg].pretty() + ") " + when +
+             (firstq ? " (its first query)" : "") + ": " + d + " = " + got.field(d) + ", a fresh object with that box gives " + exp.field(d);
+    return false;
+  };
+  for (size_t k = 0; k < ops.size(); k++) {
+    int op = ops[k];
+    if (k == 0 && op > 3) { valid = false; return V; }
+    if (op <= 3) {
+      if (istop) apply_box(*live[cur].top, cfg[op]); else live[cur].bc->setBox(cfg[op].mat());
+      live[cur].cfg = op;
+      if (live[cur].parent >= 0 || live[cur].was_copied) live[cur].own_setbox = true;
+    } else if (op == 4) {
+      if (!check(cur, "queried inside the history")) return V;
+    } else if (op == 9) {
+      if (live[cur].parent < 0) { valid = false; return V; }
+      cur = (size_t)live[cur].parent;
+    } else {
+      if (istop && (op == 5 || op == 6)) { valid = false; return V; }
+      Live n;
+      n.parent = (int)cur; n.cfg = live[cur].cfg; n.source_was_queried = live[cur].queried;
+      int other = (live[cur].cfg + 1) % (int)cfg.size();
+      if (istop) {
+        n.top = std::make_unique<Topology>();
+        n.origin = op == 7 ? "copytopologydata-into-fresh" : "copytopologydata-into-used";
+        if (op == 8) { apply_box(*n.top, cfg[other]); (void)query_top(*n.top, probes[other], !cfg[other].open()); }
+        n.top->CopyTopologyData(live[cur].top.get());
+      } else {
+        const BoundaryCondition &src = *live[cur].bc;
+        if (op == 5) { n.bc = src.Clone(); n.origin = "clone"; }
+        else if (op == 6) { n.bc = cls == 0 ? copy_ctor<OrthorhombicBox>(src) : cls == 1 ? copy_ctor<TriclinicBox>(src) : copy_ctor<OpenBox>(src); n.origin = "copy-constructed"; }
+        else {
+          n.bc = make_bc(cls);
+          n.origin = op == 7 ? "copy-assigned-fresh" : "copy-assigned-used";
+          if (op == 8) { n.bc->setBox(cfg[other].mat()); (void)query_bc(*n.bc, probes[other], cls != 2); }
+          if (cls == 0) copy_assign<OrthorhombicBox>(*n.bc, src); else if (cls == 1) copy_assign<TriclinicBox>(*n.bc, src); else copy_assign<OpenBox>(*n.bc, src);
+        }
+      }
+      live[cur].was_copied = true;
+      live.push_back(std::move(n));
+      cur = live.size() - 1;
+    }
+  }
+  // final check: every live object, in creation order
+  for (size_t i = 0; i < live.size(); i++)
+    if (!check(i, "queried at the end")) return V;
+  std::string sig = std::string(COPYCLS[cls]) + "|";
+  for (auto &o : live) sig += std::string(o.origin) + ":" + std::to_string(o.cfg) + ";";
+  V.cls = bsx::fnv(sig);
+  return V;
+}
+
 static Verdict run_case(const std::string &cas) {
   auto m = bsx::kvs(cas);
+  if (cas.rfind("copyhist;", 0) == 0) {
+    std::vector<int> ops;
+    for (auto &t : bsx::split(m["ops"], ',')) for (int i = 0; i < 10; i++) if (t == OPN[i]) ops.push_back(i);
+    bool valid = true;
+    return check_copy_history(atoi(m["cls"].c_str()), ops, valid);
+  }
   if (cas.rfind("reuse;", 0) == 0) {
     std::vector<int> seq;
     for (auto &t : bsx::split(m["seq"], ',')) seq.push_back(atoi(t.c_str()));
@@ -505,6 +689,10 @@ int main(int argc, char **argv) {
            "either point with <=1 non-zero component from {0,+-1,+-2,+-3,+-1000,+-65536}; level B (all 729 tilt combinations of the 1x1x1 and 1x1.5x3 boxes + open): full 7^3 base lattice x 8^3 differences via "
            "Topology::getDist, and 3 bases x 8^3 differences x offsets with 2 non-zero components from {+-1,+-1000}; level C (all 729 tilt combinations of the 3x1x1.5 box): 2 bases x 15^3 differences "
            "(sixteenths + 1/2+2^-20) x the level-A offsets. ";
+  R.rule += "Copy histories: every operation sequence of length <= " + std::string(thorough ? "5" : "4") + " starting with a setBox over the alphabet {setBox(config 0..3), query-all (box type, matrix, BoxVolume, "
+           "getShortestBoxDimension, BCShortestConnection on 54 probes), Clone(), copy construction, copy-assignment into a fresh / a previously used object, back to the source} on ONE OrthorhombicBox / TriclinicBox / OpenBox and its "
+           "copies, and {Topology::setBox(config, type mode), query-all, CopyTopologyData into a fresh / a used Topology, back to the source} on ONE Topology and its copies: at every query inside the history and for every live "
+           "object at its end the answers must equal bitwise those of a fresh object given only that object's current box (a copy carries the source's box; copying never changes the source). ";
   R.rule += "Reuse histories: every sequence of 2" + std::string(thorough ? " and 3" : "") + " setBox calls over 7 configurations (diagonal auto, triclinic auto, zero matrix, diagonal typed triclinic, "
            "triclinic matrix typed open, triclinic explicit, cubic typed orthorhombic) on ONE Topology, and on one OrthorhombicBox / TriclinicBox / OpenBox object (plus its Clone): box type, matrix, BoxVolume, "
            "ShortestBoxSize and BCShortestConnection/getDist on 750 probe pairs must equal bitwise those of a fresh object given only the last box. ";
@@ -586,6 +774,27 @@ int main(int argc, char **argv) {
       R.counters["levelC_boxes"]++;
     }
     R.counters["boxes"]++;
+  }
+  // ---- copy histories: all op sequences up to length 4 (thorough 5) per class and for Topology
+  {
+    long long ji = 0;
+    int maxlen = thorough ? 5 : 4;
+    for (int cls = 0; cls < 4; cls++)
+      for (int len = 1; len <= maxlen; len++) {
+        std::vector<int> idx(len, 0), radix(len, 10);
+        radix[len - 1] = 4;  // the first op (most significant digit) is a setBox
+        do {
+          std::vector<int> ops(idx.rbegin(), idx.rend());
+          if (!a.mine(ji++)) continue;
+          bool valid = true;
+          Verdict v = check_copy_history(cls, ops, valid);
+          if (!valid) continue;
+          R.eval();
+          R.counters[std::string("copy_histories_") + COPYCLS[cls]]++;
+          if (!v.ok) R.fail(v.key, v.what, "copyhist;cls=" + std::to_string(cls) + ";ops=" + opsstr(ops));
+          else R.cls(v.cls);
+        } while (bsx::next(idx, radix));
+      }
   }
   // ---- reuse histories (all sequences of 2, thorough also of 3, of the 7 reuse configurations; 4 object kinds)
   {
